@@ -312,7 +312,7 @@ fn cases(tier: &str) -> (Vec<Case>, Vec<Item>) {
                     v.push(Case::Enc { c, o: *o, input: sh, bias: 0 });
                 }
                 // short rep matches and literals at each of the last positions of the buffer (see C01)
-                if delta <= 0 && o.lc == 3 {
+                if delta <= 0 && o.lc == 3 && !o.fast {
                     for phase in 0..16u64 {
                         v.push(Case::Enc { c, o: *o, input: vec![Seg::C(total - 2000), Seg::E(if phase % 2 == 0 { 7 } else { 1000 }, 2000, 1000 + phase)], bias: 0 });
                     }
